@@ -476,7 +476,9 @@ def main(argv=None):
         outside=["graphs larger than the bound", "ops outside the alphabet (covered one at a time by C02)"],
         exhaustive=True,
     )
-    return common.main(PROP, "harness.C01", cs, args.tier, args.seed, describe, extra_evidence=extra,
+    from symnp import selftest
+
+    return common.main(PROP, "harness.C01", cs, args.tier, args.seed, describe, preflight=selftest.run, extra_evidence=extra,
                        deadline_s=1200 if args.tier == "quick" else 3400)
 
 
